@@ -77,6 +77,25 @@ Example c09_regression_update_raw_section :
   end = true.
 Proof. vm_compute. split; reflexivity. Qed.
 
+(* the auto-removal loop really iterates: table N (3) gets a reference column g (9) to the SUMMARY table 2 that
+   shows its column B (4) through the display helper column 10.  Removing the summary table's only widget:
+   round 1 removes the summary table, which converts g and clears its displayCol; only then is the helper
+   unused, round 2 removes it. *)
+Example c09_two_rounds :
+  match run_bundles [[OAddTable 4 [0] true; OAddColumn 3 0 2]; [OSetVisible 9 4; OSetDisplay 3 0 9 true 0]] c09_before with
+  | Ok m =>
+    match steps [ORemoveSections [5]] m with
+    | Ok m1 => (auto_rounds (fuel_of m1) m1 =? 2)%nat &&
+               match auto_fix (fuel_of m1) m1 with
+               | Ok m2 => RefsResolve m2 && mem 10 (cids m1) && negb (mem 10 (cids m2)) && negb (mem 2 (tids m2))
+               | _ => false
+               end
+    | _ => false
+    end
+  | _ => false
+  end = true.
+Proof. vm_compute. reflexivity. Qed.
+
 (* ---------------------------------------------------------------------------------------------- *)
 (* parts *)
 (* a single modelled action keeps every reference resolvable (unused helper columns are only collected at the
